@@ -19,15 +19,8 @@ open Vita.C11
 /-- every extracted load function passes the syntactic commit-last test -/
 theorem table_commit_last : ∀ s ∈ Gen.table, cl s = true := by decide
 
-/-- the table has one entry per name and covers every function the property lists -/
-def requiredLoads : List String := [
-  "vita::hash_t::load", "vita::i_ga::load_impl", "vita::i_de::load_impl", "vita::i_mep::load_impl",
-  "vita::individual<vita::i_ga>::load", "vita::individual<vita::i_de>::load",
-  "vita::individual<vita::i_mep>::load", "vita::team<vita::i_mep>::load",
-  "vita::population<vita::i_mep>::load", "vita::summary<vita::i_mep>::load",
-  "vita::basic_fitness_t<double>::load", "vita::matrix<int>::load", "vita::matrix<unsigned int>::load",
-  "vita::distribution<double>::load", "vita::detail::class_names<true>::load"]
-
+/-- the table has one entry per name and covers every function the property lists
+    (`requiredLoads`, Lemmas.lean) -/
 theorem table_covers : Gen.names.length = Gen.table.length ∧ ∀ n ∈ requiredLoads, n ∈ Gen.names := by
   decide
 
